@@ -9,6 +9,8 @@
 //!
 //! case = {"id", "cfg": {"mode", "nsrc"}, "script": [cmd..]}
 //! cmd = ["build", ty, reaction, cond] | ["trigger", src, ty, n] | ["trigger_noop", src, ty, n] |
+//!       ["prepare", src, ty, n]  (the source builds the future of trigger((ty, n)) without polling it; its next
+//!                                  ["trigger", src, ty, n] awaits that future: the barrier is looked up THEN) |
 //!       ["wait", b] | ["drop_handle", h] | ["drop_barrier", b] |
 //!       ["abandon", src]  (the source gives up the trigger call it is parked in: select! with a cancel signal) |
 //!       ["kill", src]     (the source itself is dropped: JoinHandle::abort / Sim::crash of the host) |
@@ -80,6 +82,8 @@ fn reaction(v: &Value) -> Reaction {
 
 #[derive(Clone)]
 enum SrcCmd {
+    /// build the future of `trigger((ty, n))` now, without polling it; a later Trig(ty, n) awaits that very future
+    Prepare(u64, u64),
     Trig(u64, u64),
     Noop(u64, u64),
     CorruptRead(u64),
@@ -109,6 +113,7 @@ struct Src {
     abandoned: Cell<u64>,
     killed: Cell<bool>,
     marks: Cell<u64>,
+    prepared: RefCell<Option<(u64, u64, std::pin::Pin<Box<dyn std::future::Future<Output = ()>>>)>>,
 }
 
 /// One byte at offset `n` of the host's file, read through the std shim (corruption
@@ -171,13 +176,26 @@ async fn source_loop(s: Rc<Src>, test: Option<Rc<RefCell<Test>>>) {
             s.notify.notified().await;
             continue;
         };
+        if let SrcCmd::Prepare(ty, n) = cmd {
+            // `let fut = trigger(x);` - an async fn does nothing until it is polled
+            let f: std::pin::Pin<Box<dyn std::future::Future<Output = ()>>> =
+                if ty == 0 { Box::pin(trigger(TA(n))) } else { Box::pin(trigger(TB(n))) };
+            *s.prepared.borrow_mut() = Some((ty, n, f));
+            continue;
+        }
         s.started.set(s.started.get() + 1);
         match cmd {
+            SrcCmd::Prepare(..) => unreachable!(),
             SrcCmd::Trig(ty, n) => {
+                let prepared = s.prepared.borrow_mut().take();
+                let fut: std::pin::Pin<Box<dyn std::future::Future<Output = ()>>> = match prepared {
+                    Some((pt, pn, f)) if pt == ty && pn == n => f,
+                    _ => if ty == 0 { Box::pin(trigger(TA(n))) } else { Box::pin(trigger(TB(n))) },
+                };
                 // like `timeout(.., trigger(..))`: the call can be given up while parked
                 let gave_up = tokio::select! {
                     biased;
-                    _ = async { if ty == 0 { trigger(TA(n)).await } else { trigger(TB(n)).await } } => false,
+                    _ = fut => false,
                     _ = s.cancel.notified() => true,
                 };
                 if gave_up {
@@ -256,6 +274,16 @@ impl Test {
                 src.q.borrow_mut().push_back(cmd);
                 src.notify.notify_one();
                 json!("sent")
+            }
+            "prepare" => {
+                let s = c[1].as_u64().unwrap() as usize;
+                let src = &srcs[s];
+                if src.started.get() != src.returned.get() + src.abandoned.get() || finished(s) || src.killed.get() {
+                    return json!("busy");
+                }
+                src.q.borrow_mut().push_back(SrcCmd::Prepare(c[2].as_u64().unwrap(), c[3].as_u64().unwrap()));
+                src.notify.notify_one();
+                json!("prepared")
             }
             "trigger" | "trigger_noop" | "corrupt_read" | "corrupt_then" => {
                 let s = c[1].as_u64().unwrap() as usize;
@@ -361,6 +389,7 @@ fn new_srcs(n: usize) -> Vec<Rc<Src>> {
                 abandoned: Cell::new(0),
                 killed: Cell::new(false),
                 marks: Cell::new(0),
+                prepared: RefCell::new(None),
             })
         })
         .collect()
